@@ -1,5 +1,6 @@
 """C04 — parsing accepts exactly the well-typed filters; accepted ones never fail later."""
 from lib import *
+import os
 import C20
 import sem
 
@@ -679,7 +680,7 @@ def rule_panic(E, R):
     rule = "R04-panic"
     spec = _os.path.join(_os.path.dirname(_os.path.dirname(_os.path.abspath(__file__))), "spec", "exec_panics.json")
     with open(spec) as f:
-        allowed = {(a["function"], a["kind"]): a["reason"] for a in _json.load(f)["allowed"]}
+        allowed = {(canon_fn(E, a["function"]), a["kind"]): a for a in _json.load(f)["allowed"]}
     insts = {i["id"]: i for i in E.mono["instances"]}
     name = {i: norm(v["path"]) for i, v in insts.items()}
     roots = [i for i in insts if name[i] in ("ast::FilterAst::compile", "ast::FilterValueAst::compile",
@@ -701,15 +702,23 @@ def rule_panic(E, R):
         if "mir" not in v:
             continue
         for k, w, c in panic_sites(v["mir"]):
-            sites.setdefault((name[i], k), set()).add(w)
+            sites.setdefault((canon_fn(E, name[i]), k), set()).add(w)
     R.analysed["instances_reachable_from_compile_execute"] = len(seen)
     R.floor(rule, "explicit panic sites reachable from compile/execute", len(sites), 30)
+    if os.environ.get("VERIF_DUMP_PANIC_COUNTS"):
+        print("PANIC-COUNTS exec_panics " + _json.dumps({"%s|%s" % k_: len(v_) for k_, v_ in sites.items()}))
+    verdicts = judge_panic_sites(E, allowed, sites)
     for (fn, k), w in sorted(sites.items()):
         label = "%s site" % k
-        if (fn, k) in allowed:
-            R.ok(rule, fn, label + " (reviewed)", allowed[(fn, k)], sorted(w)[0])
-        elif moved_panic_reason(E, fn, k, set(allowed), set(sites)):
-            R.ok(rule, fn, label + " (moved)", moved_panic_reason(E, fn, k, set(allowed), set(sites)), sorted(w)[0])
+        st_, why_ = verdicts[(fn, k)]
+        if st_ == "ok":
+            R.ok(rule, fn, label + " (reviewed)", allowed[(fn, k)]["reason"], sorted(w)[0])
+        elif st_ == "moved":
+            R.ok(rule, fn, label + " (moved)", why_, sorted(w)[0])
+        elif st_ == "grown":
+            R.violation(rule, fn, label + " (more than reviewed)",
+                        "%s: a new explicit panic appeared in a function whose panic sites were reviewed one by one "
+                        "(spec/exec_panics.json)" % why_, sorted(w)[-1])
         else:
             R.violation(rule, fn, label,
                         "an explicit panic is reachable from compile()/execute() and is not in the reviewed list (spec/exec_panics.json): "
